@@ -126,6 +126,7 @@ def deliver(G, ctx, case, fname, names, values):
     """The judged call delivered the way the case says."""
     vals = list(values)
     hi = names.index('hemisphere')
+    vals[hi] = core.fresh_str(vals[hi])
     sp = case.get('hemi_spelling')
     if sp:
         vals[hi] = vals[hi].capitalize() if sp == 'cap' else vals[hi].upper()
@@ -143,7 +144,17 @@ def deliver(G, ctx, case, fname, names, values):
     if case.get('rep'):
         ctx.count('argument_representation:' + case['rep'])
     vals = [core.rep_value(case.get('rep'), v) for v in vals]
-    return core.shaped_call(getattr(G, fname), names, vals, case.get('shape'), omit)
+    fn = getattr(G, fname)
+    r = core.case_rnd([case, fname])
+    tz = r.randint(1, 60)
+    th = r.choice(['south', 'north'])
+    tn = r.uniform(1.2e6, 8.8e6)
+    if fname == 'vincdir_utm':
+        targs = [tz, r.uniform(2e5, 8e5), tn, r.uniform(0, 360), 10 ** r.uniform(0, 4.5), th]
+    else:
+        targs = [tz, r.uniform(2e5, 8e5), tn, tz, r.uniform(2e5, 8e5), tn + r.uniform(-3e4, 3e4), th]
+    return core.maybe_interleaved(ctx, [case, fname], lambda: fn(*targs),
+                                  lambda: core.shaped_call(fn, names, vals, case.get('shape'), omit))
 
 
 def judge(ns, ctx, case, linesf_mon=None):
